@@ -804,3 +804,14 @@ def fw_target_cleared_then_timeout():
     main = [['root', 'A', 'P', 'P1'], ['sleep', 't1'], ['stop', 'B', {'clear': True}], ['root', 'A', 'L', 'L1'], ['idle', 'A'], ['obs_all', 'end']]
     return dict(buses=['A', 'B'], order=['A', 'B'], reals={'d1': ['0', '3/5'], 't1': ['0', '1/4']}, handlers=handlers,
                 typed_forwards_first=[['A', 'B', 'P']], main=main, timeouts={'P1': '1/4'}, T='1/4', horizon=7)
+
+
+
+def par_shared_child():
+    """parallel bus, nothing else queued: two handlers of P dispatch and await the very same event object in the same loop tick
+    (two copies of it in the queue, two concurrent inline processors)."""
+    handlers = [['A', 'P', 'hP0', [['dispawait_shared', 'A', 'C', 'Cshared'], ['ret', 'p0']]],
+                ['A', 'P', 'hP1', [['dispawait_shared', 'A', 'C', 'Cshared'], ['ret', 'p1']]],
+                ['A', 'C', 'hC0', [['sleep', 'd1'], ['ret', 'c0']]], ['A', 'C', 'hC1', [['ret', 'c1']]]]
+    main = [['root', 'A', 'P', 'P1'], ['await', 'P1'], ['idle', 'A'], ['obs_all', 'end']]
+    return dict(buses=['A'], parallel=['A'], reals={'d1': D}, handlers=handlers, main=main, horizon=5)
